@@ -3,6 +3,7 @@ package main
 import (
 	"fmt"
 	"io"
+	"math"
 	"os"
 	"strings"
 	"time"
@@ -146,7 +147,69 @@ func scenarioRestart(g *grammar) {
 	scenLine(name, first, "restart="+second)
 }
 
+// scenarioRolledCache: the per-participant event windows of the target no longer start at index 0 (the node holds
+// more events of a participant than its cache size: a long-running node, or one that was fast-forwarded). Every
+// "how far are you" value a peer can put into SyncRequest.Known is then delivered: the node must answer (an error
+// such as TooLate is an answer), must not panic or hang, and must still serve a well-formed request afterwards.
+func scenarioRolledCache(g *grammar) {
+	w := newWorld(g, 1000)
+	defer w.close()
+	const cache = 24
+	t := w.newNodeCache(0, nil, false, cache)
+	w.nodes[0] = t
+	for i := 0; i < cache+cache/2+rng.Intn(cache); i++ {
+		// (with so small a cache a consensus method can fail on an evicted event after the self-event was inserted:
+		// the event is the head all the same, fix d513dd9)
+		t.n.VerifCore().AddSelfEvent("")
+	}
+	if t.n.VerifCore().KnownEvents()[t.id] < cache+cache/2-1 {
+		scenLine("rolled-cache", "skipped", fmt.Sprintf("only %d own events", t.n.VerifCore().KnownEvents()[t.id]+1))
+		return
+	}
+	last := t.n.VerifCore().KnownEvents()[t.id]
+	peer := w.nodes[1].id
+	vals := []int{math.MinInt64, math.MinInt64 + 1, math.MinInt64 + cache, -(1 << 62), -1 << 33, -3, -2, -1, 0, 1, last - cache - 1, last - cache, last - cache + 1,
+		last - 1, last, last + 1, 1 << 33, 1 << 62, math.MaxInt64 - 1, math.MaxInt64}
+	delivered := 0
+	for _, v := range vals {
+		for _, lim := range []int{1000, 0} {
+			known := map[uint32]int{t.id: v, peer: -1}
+			req := &net.SyncRequest{FromID: peer, Known: known, SyncLimit: lim}
+			var wire net.SyncRequest
+			if !viaJSON(req, &wire) {
+				continue
+			}
+			r := rpcCall(t.n, &wire)
+			delivered++
+			stats["b.rolled-cache."+r.outcome]++
+			name := fmt.Sprintf("scenario:rolled-cache known[self]=%d limit=%d own-events=%d cache=%d", v, lim, last+1, cache)
+			switch r.outcome {
+			case "panic":
+				violation("panic:"+r.site, name)
+				scenLine("rolled-cache", "PANIC@"+r.site, name)
+				return
+			case "hang", "noresponse":
+				violation("hang:"+r.outcome, name)
+				scenLine("rolled-cache", "HANG", name)
+				return
+			}
+		}
+	}
+	// a well-formed request afterwards (the lock is free, the node answers)
+	if p := w.lockProbe(t); p != "" {
+		violation("node-wedged", "scenario:rolled-cache probe="+p)
+		scenLine("rolled-cache", "wedged", p)
+		return
+	}
+	r := rpcCall(t.n, &net.SyncRequest{FromID: peer, Known: map[uint32]int{t.id: last - 2, peer: -1}, SyncLimit: 1000})
+	if r.outcome != "ok" {
+		violation("node-wedged", fmt.Sprintf("scenario:rolled-cache a request for the last two events is not served: %s %s", r.outcome, errShort(r.err)))
+	}
+	scenLine("rolled-cache", "ok", fmt.Sprintf("requests=%d own-events=%d cache=%d", delivered, last+1, cache))
+}
+
 func scenarios(g *grammar) {
+	scenarioRolledCache(g)
 	poisoned := "evil\xef\xbf\xbd" // U+FFFD
 	scenarioPoisonedString(g, "join-moniker-U+FFFD", func(w *world) callRes {
 		// anyone: a correctly self-signed join request; only the moniker is unusual
